@@ -487,6 +487,25 @@ func (w *World) persistSnapshot(n *node, snap *pb.Snapshot, ents []*pb.Entry, hs
 
 // ---- application ----
 
+type handedCS struct {
+	orig *pb.ConfState
+	copy *pb.ConfState
+	idx  uint64
+}
+
+// checkHandedConfStates: a ConfState returned by ApplyConfChange is the
+// application's to keep (it stores it with its snapshots); it must not change
+// when the configuration changes later.
+func (w *World) checkHandedConfStates(n *node) {
+	for _, h := range n.handedCS {
+		if !proto.Equal(h.orig, h.copy) {
+			w.violate("C13", []string{"C10"}, "node %d: the ConfState returned by ApplyConfChange at index %d was %s when handed out and reads %s now", n.id, h.idx, confOf(h.copy), confOf(h.orig))
+			n.handedCS = nil
+			return
+		}
+	}
+}
+
 func sortedMembers(c model.Conf) []uint64 {
 	m := c.Members()
 	ids := make([]uint64, 0, len(m))
@@ -563,6 +582,11 @@ func (w *World) applyEntries(n *node, ents []*pb.Entry) {
 				if !w.call(n, "applycc", nil, func() { cs = n.rn.ApplyConfChange(cci) }) {
 					return
 				}
+				w.checkHandedConfStates(n)
+				n.handedCS = append(n.handedCS, handedCS{cs, proto.Clone(cs).(*pb.ConfState), idx})
+				if len(n.handedCS) > 8 {
+					n.handedCS = n.handedCS[1:]
+				}
 				if bootEntry {
 					next = confOf(cs)
 				}
@@ -623,6 +647,10 @@ func (w *World) Exec(a Action) {
 	case "propcc":
 		if n != nil && n.up() {
 			w.doProposeCC(n, a.D, a.F)
+		}
+	case "propmix":
+		if n != nil && n.up() {
+			w.doProposeMix(n, a.L, int(a.A))
 		}
 	case "read":
 		if n != nil && n.up() {
@@ -788,6 +816,37 @@ func (w *World) doPropose(n *node, payloads [][]byte, batch bool) {
 	}
 	w.mon.noteProposalResult(w, n, payloads, err)
 	w.logf("propose %d %q -> %v", n.id, trunc(payloads[0]), err)
+}
+
+// doProposeMix proposes one batch in which element ccPos is a ConfChangeV2 and
+// the others are normal entries.
+func (w *World) doProposeMix(n *node, elems [][]byte, ccPos int) {
+	var err error
+	ents := make([]*pb.Entry, len(elems))
+	types := make([]pb.EntryType, len(elems))
+	var normals [][]byte
+	for i, p := range elems {
+		if i == ccPos {
+			ents[i] = &pb.Entry{Type: pb.EntryConfChangeV2.Enum(), Data: append([]byte(nil), p...)}
+			types[i] = pb.EntryConfChangeV2
+			cc := &pb.ConfChangeV2{}
+			must(proto.Unmarshal(p, cc))
+			w.mon.noteCCProposal(w, n, cc)
+		} else {
+			ents[i] = &pb.Entry{Data: append([]byte(nil), p...)}
+			types[i] = pb.EntryNormal
+			normals = append(normals, p)
+		}
+	}
+	w.mon.noteProposal(w, n, normals, true)
+	w.mon.curPayloads, w.mon.curTypes = elems, types
+	w.call(n, "propose", nil, func() {
+		err = n.rn.Step(&pb.Message{Type: pb.MsgProp.Enum(), From: new(n.id), Entries: ents})
+	})
+	w.mon.curPayloads, w.mon.curTypes = nil, nil
+	w.mon.noteProposalResult(w, n, normals, err)
+	w.Stats["mixed-batches-proposed"]++
+	w.logf("propose-mix %d %d elements (conf change at %d) -> %v", n.id, len(elems), ccPos, err)
 }
 
 func (w *World) doProposeCC(n *node, data []byte, v1 bool) {
